@@ -182,12 +182,26 @@ func instantiateGenericModel(
 	// is not safe to mutate.
 	clonedStruct := reducedStruct.Clone()
 
-	rawParamNames := linq.Map(typeParamReplacementNodes, func(tParamNode *SymbolNode) string {
-		if tParamNode.Kind.IsBuiltin() {
-			return tParamNode.Id.Name
+	rawParamNames := make([]string, 0, len(typeParamReplacementNodes))
+	for idx, tParamNode := range typeParamReplacementNodes {
+		if tParamNode == nil {
+			return clonedStruct, fmt.Errorf(
+				"type argument #%d of generic struct '%s' is not present in the symbol graph",
+				idx,
+				rawStruct.Name,
+			)
 		}
-		return tParamNode.Data.(*metadata.TypeParamDeclMeta).Name
-	})
+
+		// Type arguments may be built-ins, type parameters or declared types (structs, enums, aliases...)
+		switch typeParam := tParamNode.Data.(type) {
+		case *metadata.TypeParamDeclMeta:
+			rawParamNames = append(rawParamNames, typeParam.Name)
+		case metadata.TypeParamDeclMeta:
+			rawParamNames = append(rawParamNames, typeParam.Name)
+		default:
+			rawParamNames = append(rawParamNames, tParamNode.Id.Name)
+		}
+	}
 
 	if modelNameTransformer != nil {
 		clonedStruct.Name = modelNameTransformer(clonedStruct.Name, rawParamNames)
@@ -214,6 +228,16 @@ func instantiateGenericModel(
 					"failed to parse replacement index to generic placeholder '%s' in field '%s'",
 					field.Type.Name,
 					field.Name,
+				)
+			}
+
+			if replParamIdx < 0 || int(replParamIdx) >= len(rawParamNames) {
+				return clonedStruct, fmt.Errorf(
+					"generic placeholder '%s' in field '%s' refers to type argument #%d but only %d were given",
+					field.Type.Name,
+					field.Name,
+					replParamIdx,
+					len(rawParamNames),
 				)
 			}
 
